@@ -2,45 +2,17 @@
   jv-driver: line-protocol driver.  One request per line `(model arg…)`, one
   reply per line.  Imports models and specs only (no Mathlib, no proofs).
 -/
-import JinjaV.Wire.LRU
-import JinjaV.Wire.Loop
-import JinjaV.Wire.Stream
-import JinjaV.Wire.Macro
-import JinjaV.Wire.Sandbox
-import JinjaV.Wire.Undefined
-import JinjaV.Wire.Path
-import JinjaV.Wire.Native
-import JinjaV.Wire.FiltColl
-import JinjaV.Wire.Lex
-import JinjaV.Wire.Trim
-import JinjaV.Wire.TplCache
+import JinjaV.Wire.All
 
 open JinjaV
 
 def dispatch (line : String) : Sx :=
   match Sx.parse line with
   | some (.list (.atom m :: args)) =>
-    match m with
-    | "ping" => Sx.ok (.list args)
-    | "lru" => Wire.LRU.handle args
-    | "lru-lin" => Wire.LRU.handleLin args
-    | "loop" => Wire.Loop.handle args
-    | "stream" => Wire.Stream.handle args
-    | "macro" => Wire.Macro.handle args
-    | "sbx" => Wire.Sandbox.handle args
-    | "undef" => Wire.Undefined.handle args
-    | "lex" => Wire.Lex.handle args
-    | "trim" => Wire.Trim.handle args
-    | "tplcache" => Wire.TplCache.handle args
-    | "lex-plain" => Wire.Lex.handlePlain args
-    | "filt" => Wire.FiltColl.handle args
-    | "native" => Wire.Native.handle args
-    | "path-split" => Wire.Path.handleSplit args
-    | "path-join" => Wire.Path.handleJoin args
-    | "path-choice" => Wire.Path.handleChoice args
-    | "path-prefix" => Wire.Path.handlePrefix args
-    | "sbx-unblocked" => Wire.Sandbox.handleUnblocked args
-    | _ => Sx.bad
+    if m == "ping" then Sx.ok (.list args)
+    else match Wire.allHandlers.lookup m with
+      | some h => h args
+      | none => Sx.bad
   | _ => Sx.bad
 
 partial def loop (h : IO.FS.Stream) (out : IO.FS.Stream) : IO Unit := do
